@@ -492,3 +492,96 @@ Proof.
   intros H. destruct (parse_text_sound _ _ H) as [D _].
   exact (program_good _ _ D (ordered_chain _ _ (lex_tokens_ordered text))).
 Qed.
+
+(* ================= derivations have no nil node at all ================= *)
+Lemma expr_complete_of : (forall ts e, DAtom ts e -> expr_complete e = true) /\ (forall ts e, DExpr ts e -> expr_complete e = true).
+Proof.
+  assert (Hnum : forall t e ok, number_of_token t = Some (e, ok) -> expr_complete e = true).
+  { intros t e ok H. unfold number_of_token in H. destruct (number_literal (text_of t)) as [[n o]|]; [|discriminate]. injection H as <- _. reflexivity. }
+  assert (Hrat : forall t e, ratio_of_token t = Some e -> expr_complete e = true).
+  { intros t e H. unfold ratio_of_token in H. destruct (portion_literal (text_of t)) as [[n d]|]; [|discriminate]. injection H as <-. reflexivity. }
+  split.
+  - intros ts e D. induction D using DAtom_mut with (P0 := fun ts e _ => expr_complete e = true); cbn [expr_complete]; try reflexivity;
+      try (eapply Hnum; eassumption); try (eapply Hrat; eassumption); try exact IHD; rewrite IHD, IHD0; reflexivity.
+  - intros ts e D. induction D using DExpr_mut with (P := fun ts e _ => expr_complete e = true); cbn [expr_complete]; try reflexivity;
+      try (eapply Hnum; eassumption); try (eapply Hrat; eassumption); try exact IHD; first [rewrite IHD1, IHD2|rewrite IHD, IHD0]; reflexivity.
+Qed.
+
+Lemma allot_complete_of a al : DAllotment a al -> allot_complete al = true.
+Proof. intros D. destruct D; reflexivity. Qed.
+
+Lemma source_complete_inorder r l : source_complete (SInorder r l) = forallb source_complete l.
+Proof. reflexivity. Qed.
+Definition complete_sitem (it : range * allot * source) : bool := allot_complete (snd (fst it)) && source_complete (snd it).
+Lemma source_complete_allot r items : source_complete (SAllot r items) = forallb complete_sitem items.
+Proof. cbn [source_complete]. induction items as [|[[ir a] x] l IH]; [reflexivity|]. cbn [forallb]. unfold complete_sitem at 1. cbn [fst snd]. now rewrite <- IH. Qed.
+
+Lemma source_complete_of :
+  (forall ts s, DSource ts s -> source_complete s = true) /\
+  (forall ts l, DSources ts l -> forallb source_complete l = true) /\
+  (forall ts items, DSrcClauses ts items -> forallb complete_sitem items = true).
+Proof.
+  apply DSource_comb.
+  - intros ts e D. exact (proj2 expr_complete_of _ _ D).
+  - intros ts e al u o D _ _ _. cbn [source_complete]. now rewrite (proj2 expr_complete_of _ _ D).
+  - intros ts e al o up to tb b D _ _ _ _ D0. cbn [source_complete]. now rewrite (proj2 expr_complete_of _ _ D), (proj2 expr_complete_of _ _ D0).
+  - intros mx tc cap fr tf from _ D _ _ IH. cbn [source_complete]. now rewrite IH, (proj2 expr_complete_of _ _ D).
+  - intros lb tss l rb _ _ IH _. rewrite source_complete_inorder. exact IH.
+  - intros lb tcs items rb _ _ IH _ _. rewrite source_complete_allot. exact IH.
+  - reflexivity.
+  - intros t1 s t2 l _ IH _ IH0. cbn [forallb]. now rewrite IH, IH0.
+  - reflexivity.
+  - intros a al fr ts s t2 l Da _ _ IH _ IH0. cbn [forallb]. unfold complete_sitem at 1. cbn [fst snd]. now rewrite (allot_complete_of _ _ Da), IH, IH0.
+Qed.
+
+Definition complete_dcl (c : range * expr * kod) : bool := expr_complete (snd (fst c)) && kod_complete (snd c).
+Definition complete_ditem (it : range * allot * kod) : bool := allot_complete (snd (fst it)) && kod_complete (snd it).
+Lemma dest_complete_inorder r cl rem : dest_complete (DInorder r cl rem) = forallb complete_dcl cl && kod_complete rem.
+Proof. cbn [dest_complete]. f_equal. induction cl as [|[[cr e] k] l IH]; [reflexivity|]. cbn [forallb]. unfold complete_dcl at 1. cbn [fst snd]. now rewrite <- IH. Qed.
+Lemma dest_complete_allot r items : dest_complete (DAllot r items) = forallb complete_ditem items.
+Proof. cbn [dest_complete]. induction items as [|[[ir a] k] l IH]; [reflexivity|]. cbn [forallb]. unfold complete_ditem at 1. cbn [fst snd]. now rewrite <- IH. Qed.
+
+Lemma dest_complete_of :
+  (forall ts d, DDest ts d -> dest_complete d = true) /\
+  (forall ts k, DKod ts k -> kod_complete k = true) /\
+  (forall ts cl, DInClauses ts cl -> forallb complete_dcl cl = true) /\
+  (forall ts items, DDstClauses ts items -> forallb complete_ditem items = true).
+Proof.
+  apply DDest_comb.
+  - intros ts e D. exact (proj2 expr_complete_of _ _ D).
+  - intros lb tcl cl rm tk rem rb _ _ IH _ _ _ IH0 _. rewrite dest_complete_inorder. now rewrite IH, IH0.
+  - intros lb tcs items rb _ _ IH _ _. rewrite dest_complete_allot. exact IH.
+  - reflexivity.
+  - intros t ts d _ _ IH. exact IH.
+  - reflexivity.
+  - intros mx tc cap tk k t2 l _ D _ IH _ IH0. cbn [forallb]. unfold complete_dcl at 1. cbn [fst snd]. now rewrite (proj2 expr_complete_of _ _ D), IH, IH0.
+  - reflexivity.
+  - intros a al tk k t2 l Da _ IH _ IH0. cbn [forallb]. unfold complete_ditem at 1. cbn [fst snd]. now rewrite (allot_complete_of _ _ Da), IH, IH0.
+Qed.
+
+Lemma sent_complete_of ts sv : DSent ts sv -> sent_complete sv = true.
+Proof. intros D. destruct D as [ts e D|lb ta a st rb _ D _ _]; exact (proj2 expr_complete_of _ _ D). Qed.
+Lemma args_complete_of ts args : DArgs ts args -> forallb expr_complete args = true.
+Proof. induction 1 as [ts e D|ts e c t2 l D _ _ IH]; cbn [forallb]; rewrite (proj2 expr_complete_of _ _ D); [reflexivity|exact IH]. Qed.
+Lemma fncall_complete_of ts f : DFnCall ts f -> fncall_complete f = true.
+Proof. intros D. destruct D as [| name lp ta args rp _ _ Da _]; [reflexivity|exact (args_complete_of _ _ Da)]. Qed.
+Lemma stmt_complete_of ts s : DStmt ts s -> stmt_complete s = true.
+Proof.
+  intros D. destruct D as [sd tsv sv lp so e1 tsrc src de e2 tdst dst rp _ D _ _ _ D0 _ _ D1 _|sa tsv sv fr ta a _ D _ D0|ts f D]; cbn [stmt_complete].
+  - now rewrite (sent_complete_of _ _ D), (proj1 source_complete_of _ _ D0), (proj1 dest_complete_of _ _ D1).
+  - now rewrite (sent_complete_of _ _ D), (proj2 expr_complete_of _ _ D0).
+  - exact (fncall_complete_of _ _ D).
+Qed.
+
+Theorem program_complete_of ts p : DProgram ts p -> program_complete p = true.
+Proof.
+  assert (Hs : forall ts ss, DStmts ts ss -> forallb stmt_complete ss = true).
+  { induction 1 as [|t1 s t2 l D _ IH]; [reflexivity|]. cbn [forallb]. now rewrite (stmt_complete_of _ _ D), IH. }
+  assert (Hv : forall ts ds, DVarDecls ts ds -> forallb vardecl_complete ds = true).
+  { induction 1 as [|ty name t2 l _ _ _ IH|ty name eq tf f t2 l _ _ _ Df _ IH]; [reflexivity| |]; cbn [forallb]; unfold vardecl_complete at 1; cbn [vd_name vd_type vd_origin];
+      [exact IH|now rewrite (fncall_complete_of _ _ Df), IH]. }
+  intros D. destruct D as [v lb td ds rb ts ss _ _ Dv _ Ds|ts ss Ds]; unfold program_complete; cbn [p_vars p_stmts forallb]; [now rewrite (Hv _ _ Dv), (Hs _ _ Ds)|exact (Hs _ _ Ds)].
+Qed.
+
+Theorem accepted_text_complete text p : parse_text text = Parsed p -> program_complete p = true.
+Proof. intros H. exact (program_complete_of _ _ (proj1 (parse_text_sound _ _ H))). Qed.
